@@ -158,6 +158,7 @@ func (fc *FuncCtx) callUnknownFuncVal(call *ast.CallExpr, st *St) []Term {
 		st.glob[g] = fc.fresh("glob_"+g, st.glob[g].Sort)
 	}
 	fc.unknownCalls++
+	fc.Assumed["a function value read from a data structure (called at "+fc.pos(call)+") returns or panics (termination of the stored function is not covered); its result and its effects on maps, buffers and abstract globals are arbitrary"] = true
 	t := fc.typeOf(call)
 	if tup, ok := t.(*types.Tuple); ok {
 		var r []Term
@@ -680,6 +681,43 @@ func (fc *FuncCtx) tsubstFor(call *ast.CallExpr, fn *types.Func) map[string]*Sor
 	return m
 }
 
+// tsubstTypesFor: the Go types the type parameters of a generic call are instantiated with.
+func (fc *FuncCtx) tsubstTypesFor(call *ast.CallExpr, fn *types.Func) map[string]types.Type {
+	if call == nil || fn == nil {
+		return nil
+	}
+	fun := ast.Unparen(call.Fun)
+	switch f := fun.(type) {
+	case *ast.IndexExpr:
+		fun = f.X
+	case *ast.IndexListExpr:
+		fun = f.X
+	}
+	var id *ast.Ident
+	switch f := fun.(type) {
+	case *ast.Ident:
+		id = f
+	case *ast.SelectorExpr:
+		id = f.Sel
+	}
+	if id == nil {
+		return nil
+	}
+	inst, ok := fc.info().Instances[id]
+	if !ok {
+		return nil
+	}
+	sig, _ := fn.Type().(*types.Signature)
+	if sig == nil || sig.TypeParams() == nil {
+		return nil
+	}
+	m := map[string]types.Type{}
+	for i := 0; i < sig.TypeParams().Len() && i < inst.TypeArgs.Len(); i++ {
+		m[sig.TypeParams().At(i).Obj().Name()] = inst.TypeArgs.At(i)
+	}
+	return m
+}
+
 // inlineCall executes the callee body in the caller's state and merges its return paths.
 func (fc *FuncCtx) inlineCall(ref *FuncRef, fn *types.Func, args []Term, call *ast.CallExpr, st *St) []Term {
 	ts := fc.tsubstFor(call, fn)
@@ -687,6 +725,10 @@ func (fc *FuncCtx) inlineCall(ref *FuncRef, fn *types.Func, args []Term, call *a
 		ts = fc.fvTArgs
 	}
 	saveTs := fc.tsubst
+	saveTT := fc.tsubstTypes
+	if tt := fc.tsubstTypesFor(call, fn); tt != nil {
+		fc.tsubstTypes = tt
+	}
 	if ts != nil {
 		fc.tsubst = ts
 	} else if fn != nil {
@@ -702,6 +744,7 @@ func (fc *FuncCtx) inlineCall(ref *FuncRef, fn *types.Func, args []Term, call *a
 		fc.inlStack = fc.inlStack[:len(fc.inlStack)-1]
 		fc.infoStack = fc.infoStack[:len(fc.infoStack)-1]
 		fc.tsubst = saveTs
+		fc.tsubstTypes = saveTT
 	}()
 	work := st.clone()
 	formals := formalObjs(ref)
@@ -789,12 +832,15 @@ func (fc *FuncCtx) inlineLit(fv *FuncVal, args []Term, st *St) []Term {
 	}
 	fc.infoStack = append(fc.infoStack, fv.Info)
 	saveTs := fc.tsubst
+	saveTT := fc.tsubstTypes
 	fc.tsubst = fv.TArgs
+	fc.tsubstTypes = fv.TTypes
 	fc.inlineDep++
 	defer func() {
 		fc.inlineDep--
 		fc.infoStack = fc.infoStack[:len(fc.infoStack)-1]
 		fc.tsubst = saveTs
+		fc.tsubstTypes = saveTT
 	}()
 	work := st.clone()
 	for k, v := range fv.Env.vars {
@@ -1087,6 +1133,12 @@ func (fc *FuncCtx) callByContract(con *Contract, ref *FuncRef, fn *types.Func, a
 		fc.oblig(st, "call."+ord+".pre."+r.Name, fc.spec(r.Expr, env), "precondition of "+con.Key+": "+r.Src, pos, nil)
 		st.assume(fc.spec(r.Expr, env))
 	}
+	if con.Decreases != nil && fc.Con.Decreases != nil && (con.Key == fc.Con.Key || con.RecGroup != "" && con.RecGroup == fc.Con.RecGroup) {
+		// (mutually) recursive call: the variant at the callee's arguments is non-negative and smaller than at entry
+		v1 := fc.spec(con.Decreases, env)
+		v0 := fc.spec(fc.Con.Decreases, fc.newEnv(fc.entry))
+		fc.oblig(st, "call."+ord+".decreases", And(Le(IntLit(0), v1), Lt(v1, v0)), "recursion terminates: decreases "+con.DecSrc, pos, nil)
+	}
 	// panic paths of the callee: it may have modified what its contract lets it modify, and its onpanic
 	// clauses hold
 	calleePanics := func(s2 *St, what string) {
@@ -1161,10 +1213,14 @@ func (fc *FuncCtx) callByContract(con *Contract, ref *FuncRef, fn *types.Func, a
 			pre.tra[nm] = st.tra[nm]
 			nt := fc.fresh("trn", SInt)
 			st.assume(Le(st.trn[nm], nt))
+			oldN := st.trn[nm]
 			st.trn[nm] = nt
 			var na []Term
 			for _, t := range st.tra[nm] {
-				na = append(na, fc.fresh("tra", t.Sort))
+				n := fc.fresh("tra", t.Sort)
+				// a call trace is a history: the entries recorded before the call stay what they were
+				st.assume(T(fmt.Sprintf("(forall ((j Int)) (! (=> (< j %s) (= (select %s j) (select %s j))) :pattern ((select %s j))))", oldN.S, n.S, t.S, n.S), SBool))
+				na = append(na, n)
 			}
 			st.tra[nm] = na
 		}
